@@ -3,7 +3,10 @@ import BSModel.Model.Copy
 /-! line protocol of C12 (copies, equality)
 
     c12 setitem  <dictCls> <key> <val>           what `d[key] = val` stores in a dict of that class (`coerce`): <val> | drop
+    c12 soupinfo <builder> <builder.is_xml> <is_xml> <parse_only:onat> <element_classes:onat> <original_encoding:ostr>
+                 <declared_html_encoding:ostr> <contains_replacement_characters>      the same fields of the copy (`soupCopySelf`)
     c12 copy     <inh> <next> <path> <tree>      `copyImpl` on the node at <path>; reply `<next'> <tree>` | `underflow`
+    c12 copyself <inh> <next> <path> <tree>      `tag.copy_self()`: the clone without contents
     c12 copyspec <inh> <next> <path> <tree>      the same through `copySpec`
     c12 soupcopy <inh> <next> <fresh: a T node without children> <tree>     `copySoupImpl` on the root
     c12 events   <inh> <path> <tree>             the event stream below the node: s<name> | m<name> | t<val> | x
@@ -168,7 +171,15 @@ def handle : List String → String
     match coerce cls.toNat! km.1 km.2 (parseVal v) with
     | none => "drop"
     | some v' => showVal v'
+  | ["soupinfo", b, bx, x, po, ec, oe, dhe, crc] =>
+    let r := soupCopySelf ⟨b.toNat!, bx == "1", x == "1", onat po, onat ec, ostr oe, ostr dhe, crc == "1"⟩
+    " ".intercalate [toString r.builder, bit r.builderIsXml, bit r.isXml, showON r.parseOnly, showON r.elementClasses,
+      showOP r.originalEncoding, showOP r.declaredHtmlEncoding, bit r.containsReplacementCharacters]
   | "copy" :: inh :: next :: path :: toks => copyWith copyImpl inh next path toks
+  | "copyself" :: inh :: next :: path :: toks =>
+    copyWith (fun i n t => match t with
+      | .tag _ d _ => let r := copySelf n d (isXml i d); some (.tag r.1 r.2.1 [], r.2.2)
+      | .str _ c v => some (.str n c v, n + 1)) inh next path toks
   | "copyspec" :: inh :: next :: path :: toks => copyWith (fun i n t => some (copySpec i n t)) inh next path toks
   | "soupcopy" :: inh :: next :: toks =>
     match parseNode (toks.length + 1) toks with
